@@ -1088,7 +1088,7 @@ func (s *siSup) start() {
 	cmd.ExtraFiles = []*os.File{w}
 	s.stderr = &siTailBuf{}
 	cmd.Stderr = s.stderr
-	cmd.Env = append(os.Environ(), "GOTRACEBACK=none")
+	cmd.Env = append(os.Environ(), "GOTRACEBACK=none", "GOMAXPROCS=1") // single-threaded work; a small runtime starts much faster
 	in, err := cmd.StdinPipe()
 	if err != nil {
 		siFail(err.Error())
